@@ -202,36 +202,42 @@ def run(ctx, ck):
             mn, mx = loop_reaches_on_all_paths(gfl, l, is_app)
             ck.ob('R-EXH.grid-to-table', '%s|%s' % (NF, attr), (mn, mx) == (1, 1), g.loc(l),
                   '%s.append per grid point: min %s max %s' % (attr, mn, mx))
-    from ..rules import loops_in_closure
+    # the tables: on every path of the writer (private helpers, generator pipelines looked through) exactly one
+    # FIELD POINT line per element of zip(<the field list>, the grid points)
+    from ..symx import SymExec
+    from ..lines import lines_with_loops, ranges_over
+    wq_ = {g_.qual for g_ in m.all_funcs() if 'as_mininec' in g_.name and not g_.name.startswith('_')}
     for q, fld in (('mininec.Mininec.near_field_e_as_mininec', 'self.e_field'),
                    ('mininec.Mininec.near_field_h_as_mininec', 'self.h_field')):
         w = m.func(q)
-        # the table loop: zip(<field>, self.near_field_iter()) in the writer or in a shared helper
-        cand = loops_in_closure(ctx, w, lambda l: isinstance(l, ast.For) and isinstance(l.iter, ast.Call)
-                                and norm(l.iter.func) == 'zip' and len(l.iter.args) == 2
-                                and norm(l.iter.args[1]) == 'self.near_field_iter()')
-        ok = len(cand) == 1
-        cnt = None
-        if ok:
-            g_, l_ = cand[0]
-            gfl_ = ctx.flow(g_)
-            first = norm(l_.iter.args[0])
-            if g_ is w:
-                ok = first == fld
-            else:
-                # helper: the field list is a parameter, the writer passes its own field
-                ok = first in g_.all_params and any(
-                    isinstance(c, ast.Call) and isinstance(c.func, ast.Attribute) and c.func.attr == g_.name
-                    and any(norm(a) == fld for a in c.args + [k.value for k in c.keywords])
-                    for c in walk_no_nested(w.node))
-
-            def is_point_line(n):
-                s_ = n.stmt
-                return n.kind == 'stmt' and isinstance(s_, ast.Expr) and 'FIELD POINT' in norm(
-                    gfl_.inline(s_.value, n.id) if isinstance(s_.value, ast.Call) else s_.value)
-            cnt = loop_reaches_on_all_paths(gfl_, l_, is_point_line)
-            ok = ok and cnt == (1, 1)
-        ck.ob('R-EXH.grid-to-table', q, ok, w.loc(), 'one FIELD POINT block per (field, grid point): %s' % (cnt,))
+        seen = set()
+        bad = None
+        for p_ in SymExec(ctx, w, bind_loops=True, no_expand=wq_ - {q}, max_paths=5000).run():
+            if p_.end == 'raise':
+                continue
+            ent = [t_ for k_, t_ in p_.conds if k_ == 'loop' and ranges_over(t_, fld)]
+            skp = [t_ for k_, t_ in p_.conds if k_ == 'loop-skipped' and ranges_over(t_, fld)]
+            L = lines_with_loops(p_)
+            pts = [(e_, lp_) for e_, lp_, st_ in L if any(isinstance(c_, ast.Constant) and isinstance(c_.value, str) and
+                                                       'FIELD POINT' in c_.value for c_ in ast.walk(e_))]
+            comp = [lp_ for e_, lp_ in pts if any(ranges_over(x_, fld) for x_ in lp_)]
+            if skp and not ent and not comp:
+                if pts:
+                    bad = bad or 'a FIELD POINT line is written for an empty field list'
+                continue
+            if not pts and not ent and any(k_ == 'loop-skipped' for k_, t_ in p_.conds):
+                continue        # an empty grid: nothing to write
+            its = {x_ for e_, lp_ in pts for x_ in lp_} | set(ent)
+            grid = any('near_field_iter()' in x_ or 'self.near_field_coord' in x_ for x_ in its)
+            seen.add((len(pts), grid))
+            if len(pts) != 1:
+                bad = bad or '%d FIELD POINT lines per field vector' % len(pts)
+            elif not grid:
+                bad = bad or 'the FIELD POINT lines do not range over the grid points (%s)' % sorted(its)
+            elif not (ent or comp):
+                bad = bad or 'the FIELD POINT line is not written per element of %s' % fld
+        ok = bad is None and bool(seen)
+        ck.ob('R-EXH.grid-to-table', q, ok, w.loc(), 'one FIELD POINT block per (field, grid point): %s' % (bad or sorted(seen),))
     far = m.func('mininec.Mininec.compute_far_field')
     # the angle arrays handed to Far_Field_Pattern, as closed expressions of the symbolic walk: the two
     # components of one meshgrid over the degree lists of both angles
